@@ -9,6 +9,8 @@ import (
 	"strings"
 
 	"golang.org/x/tools/go/packages"
+
+	"jsverif/internal/prog"
 )
 
 func init() { register("C06", propC06, false, true) }
@@ -27,11 +29,59 @@ func propC06(c *Ctx) {
 
 // mapRangeExceptions: range-over-map loops that the classifier cannot discharge although reading shows
 // that the observable result does not depend on the order. One named function each, with the reason.
-var mapRangeExceptions = map[string]string{
-	"catalog.NewExchangeJSightSchema | range coreRules":    "the only error AddRule can return on a fresh schema (nil rule / rule already checked by buildRule) does not depend on which element comes first, and all elements are added to a map in the dependency",
-	"core.newPathVariablesSchema | range userTypes":        "AddType on the fresh path schema stores into a map keyed by the type name; its only error (duplicate name) cannot occur because the keys of a Go map are distinct",
-	"catalog.(ObjectBuilder).AddProperty | range types":    "ischema.ISchema.AddType stores the type into a map keyed by its name inside the dependency (read there); the insertion order into a Go map is not observable",
-	"core.(*JApiCore).buildUserTypes$1 | range core.rules": "AddRule on a freshly created schema stores into a map keyed by the rule name; its errors (nil rule, rule that fails Check) were excluded when the rule was built, so the early return cannot depend on the order",
+var mapRangeExceptions = map[string]string{}
+
+// keyedInsertCallees: methods of the dependency that store (name, value) into a map keyed by the name. A map-range
+// loop whose body is only `<x>.M(key, value)` (the range key and value, possibly with `if err != nil { return .. }`)
+// feeds the distinct keys of a Go map into another name-keyed map: which element comes first is not observable, and
+// the error the call can return does not depend on what was inserted before (read in the dependency; one line each).
+// Named by the callee, so it holds wherever the loop lives (a closure, a method, a helper).
+var keyedInsertCallees = map[string]string{
+	"jsight-schema-core/notations/jschema.(*JSchema).AddRule":         "stores into the schema's rule map under the name; the errors (nil rule, a rule that fails Check) concern the single rule and were excluded when core.buildRule built it",
+	"jsight-schema-core/notations/jschema.(*JSchema).AddType":         "stores into the schema's type map under the name; the only error (duplicate name) cannot occur since the keys of a Go map are distinct",
+	"jsight-schema-core/notations/jschema/ischema.(*ISchema).AddType": "stores the type into the inner schema's map under its name; no error result",
+	"jsight-schema-core.(Schema).AddRule":                             "the interface method: (*JSchema).AddRule as above, (*RSchema).AddRule does nothing and returns nil; the already-compiled error of (*JSchema).AddRule does not depend on the rules added before either",
+}
+
+// keyedInsertLoop: the loop body is one keyed insert into the dependency (see keyedInsertCallees); returns the callee.
+func keyedInsertLoop(pk *packages.Package, rs *ast.RangeStmt) string {
+	if len(rs.Body.List) != 1 {
+		return ""
+	}
+	kv := func(e ast.Expr, v ast.Expr) bool {
+		a, b := identOf(e), identOf(v)
+		return a != nil && b != nil && pk.TypesInfo.Uses[a] != nil && pk.TypesInfo.Uses[a] == pk.TypesInfo.Defs[b]
+	}
+	var call *ast.CallExpr
+	switch x := rs.Body.List[0].(type) {
+	case *ast.ExprStmt:
+		call, _ = ast.Unparen(x.X).(*ast.CallExpr)
+	case *ast.IfStmt:
+		as, ok := x.Init.(*ast.AssignStmt)
+		if !ok || len(as.Rhs) != 1 || len(as.Lhs) != 1 || x.Else != nil || len(x.Body.List) != 1 {
+			return ""
+		}
+		if _, isRet := x.Body.List[0].(*ast.ReturnStmt); !isRet {
+			return ""
+		}
+		be, ok := ast.Unparen(x.Cond).(*ast.BinaryExpr)
+		if !ok || be.Op != token.NEQ || !isNil(pk, be.Y) || exprString(be.X) != exprString(as.Lhs[0]) {
+			return ""
+		}
+		call, _ = ast.Unparen(as.Rhs[0]).(*ast.CallExpr)
+	}
+	if call == nil || len(call.Args) != 2 || rs.Key == nil || rs.Value == nil || !kv(call.Args[0], rs.Key) || !kv(call.Args[1], rs.Value) {
+		return ""
+	}
+	cal := callee(pk, call)
+	if cal == nil {
+		return ""
+	}
+	name := prog.FuncName(cal)
+	if _, ok := keyedInsertCallees[name]; ok {
+		return name
+	}
+	return ""
 }
 
 type mapRangeSite struct {
@@ -316,6 +366,11 @@ func (c *Ctx) ruleMapRange(rule string) {
 			r.Ok(rule, key, "order-insensitive body", c.pos(s.rs.Pos()))
 			continue
 		}
+		if cal := keyedInsertLoop(s.f.Pkg, s.rs); cal != "" {
+			r.Ok(rule, key, "the body is one keyed insert into the dependency, "+cal+": "+keyedInsertCallees[cal], c.pos(s.rs.Pos()))
+			r.Except(cal, keyedInsertCallees[cal])
+			continue
+		}
 		if why, ok := mapRangeExceptions[key]; ok {
 			r.Ok(rule, key, "named exception: "+why, c.pos(s.rs.Pos()))
 			r.Except(key, why)
@@ -591,9 +646,11 @@ func (c *Ctx) ruleGlobalState(rule string) {
 	})
 	problems := map[*types.Var][]string{}
 	onceWrites := map[*types.Var]bool{}
+	onceOnly := c.onceOnlyFuncs()
 	for _, f := range c.libFns() {
 		pk := f.Pkg
 		isInit := f.Obj.Name() == "init" && f.Decl.Recv == nil
+		runsOnce := onceOnly[f.Obj]
 		inspectWithStack(f.Decl.Body, func(n ast.Node, stack []ast.Node) bool {
 			id, ok := n.(*ast.Ident)
 			if !ok {
@@ -681,7 +738,7 @@ func (c *Ctx) ruleGlobalState(rule string) {
 			}
 			switch {
 			case isInit:
-			case inOnce && write != "address taken":
+			case (inOnce || runsOnce) && write != "address taken":
 				onceWrites[v] = true
 			default:
 				problems[v] = append(problems[v], fmt.Sprintf("%s in %s", write, f.Name()))
@@ -706,4 +763,50 @@ func (c *Ctx) ruleGlobalState(rule string) {
 			r.Ok(rule, key, "written only by its initialiser", c.pos(g.v.Pos()))
 		}
 	}
+}
+
+// onceOnlyFuncs: functions of the library whose every mention is as the argument of a (*sync.Once).Do call: their
+// body runs under the Once exactly like a closure written in place.
+func (c *Ctx) onceOnlyFuncs() map[*types.Func]bool {
+	asOnceArg := map[*types.Func]int{}
+	other := map[*types.Func]int{}
+	for _, f := range c.libFns() {
+		pk := f.Pkg
+		inspectWithStack(f.Decl.Body, func(n ast.Node, stack []ast.Node) bool {
+			id, ok := n.(*ast.Ident)
+			if !ok {
+				return true
+			}
+			g, ok := pk.TypesInfo.Uses[id].(*types.Func)
+			if !ok || g.Pkg() == nil || !c.P.IsLibPkg(g.Pkg()) {
+				return true
+			}
+			// climb over a package/receiver qualifier
+			i := len(stack) - 1
+			var child ast.Node = id
+			if i >= 0 {
+				if sel, ok := stack[i].(*ast.SelectorExpr); ok && sel.Sel == id {
+					child = sel
+					i--
+				}
+			}
+			if i >= 0 {
+				if call, ok := stack[i].(*ast.CallExpr); ok && len(call.Args) == 1 && call.Args[0] == child {
+					if m := callee(pk, call); m != nil && m.Name() == "Do" && m.Pkg() != nil && m.Pkg().Path() == "sync" {
+						asOnceArg[g.Origin()]++
+						return true
+					}
+				}
+			}
+			other[g.Origin()]++
+			return true
+		})
+	}
+	out := map[*types.Func]bool{}
+	for g, n := range asOnceArg {
+		if n > 0 && other[g] == 0 && !g.Exported() {
+			out[g] = true
+		}
+	}
+	return out
 }
